@@ -6,69 +6,83 @@
    Processes
      H  a third party that holds Stream.mutex for reading for a while (another in-flight WriteUnit,
         an offline track write, Stream.OutboundBytes() from API / metrics)
-     W  the publisher A that is being replaced: one call of SubStream.WriteUnit
-     R  the replacement: SubStream.Initialize of publisher B (swaps Stream.subStream under Lock)
+     S  something that makes a write SLOW between the stale guard and the fan-out (the unit carries new
+        parameter sets and updateOutDesc has to wait for outDescMutex; a large unit; preemption)
+     W  the publisher A that is being replaced: one call of SubStream.WriteUnit, in three parts:
+        WAcquire (RLock), WEnter (the guard `Stream.subStream # ss => return`), WDeliver (fan-out to the
+        readers; waits while S stalls it), WExit (RUnlock)
+     R  the replacement: SubStream.Initialize of publisher B (swaps Stream.subStream under Lock, returns)
    and the readers' queues (`delivered`: what was handed to them, in order).
 
    The lock is Go's sync.RWMutex: any number of readers or one writer, and WRITER PREFERENCE:
    a Lock that is waiting (`pending`) blocks every new RLock until it has been served.
 
-   Layer 1 follows WriteUnit as coded: RLock, then the guard `Stream.subStream # ss => return`,
-   then the fan-out, then RUnlock.  The named deviation CheckOutsideLock (FALSE = the code) evaluates
-   the guard BEFORE RLock is requested, so check and write are not atomic w.r.t. the swap any more.
+   Layer 1 follows the code: the guard is evaluated under RLock, and Initialize takes the WRITE lock, which is
+   what makes a replacement WAIT for writes of the old publisher that are in progress.  Named deviations
+   (FALSE = the code):  CheckOutsideLock  the guard is evaluated BEFORE RLock is requested;
+                        InitUnderReadLock Initialize swaps under RLock, so it does not wait for writers inside.
 
-   Gates (what a harness can do at a chosen moment): HAcq, HRel, WCall, RCall.  Everything else
-   (lock grants, guard, fan-out, swap, unlocks) is internal.  s.eager = TRUE is the granularity of the
-   replay: after a gate the internal steps run until nothing more can happen.  Both granularities are
-   explored in one TLC run (Init picks s.eager).
+   Gates (what a harness can do at a chosen moment): HAcq, HRel, SHold, SRel, WCall, RCall.  Everything else
+   is internal.  s.eager = TRUE is the granularity of the replay: after a gate the internal steps run until
+   nothing more can happen.  Both granularities are explored in one TLC run (Init picks s.eager and a mode).
 
-   Layer 2 (the statement): no unit of A is handed to a reader after the swap has happened.          *)
+   Layer 2 (the statement): no unit of A is handed to a reader after the swap has happened, in particular
+   none after Initialize has returned.                                                                   *)
 EXTENDS VerifCommon
 
 CONSTANTS CheckOutsideLock,   \* named deviation; FALSE = the code
-          WithHolder          \* set of BOOLEAN: does a third party take part
+          InitUnderReadLock,  \* named deviation; FALSE = the code
+          Modes               \* which third parties take part: subset of {"plain", "holder", "stall"}
 
 VARIABLE s
 vars == <<s>>
 
-Init0(eager, holder) ==
+Init0(eager, mode) ==
     [eager   |-> eager,
-     holder  |-> holder,
+     mode    |-> mode,
      readers |-> {},          \* who holds the lock for reading
      writer  |-> FALSE,       \* the lock is held for writing
      pending |-> FALSE,       \* a Lock() is waiting: new RLock()s wait behind it
-     pcH     |-> IF holder THEN "idle" ELSE "released",     \* idle, holding, released
-     pcW     |-> "idle",      \* idle, started (deviation only), wantR, locked, done
-     pcR     |-> "idle",      \* idle, wantW, locked, done
+     pcH     |-> IF mode = "holder" THEN "idle" ELSE "released",    \* idle, holding, released
+     pcS     |-> IF mode = "stall" THEN "idle" ELSE "released",     \* idle, holding (writes are slow), released
+     pcW     |-> "idle",      \* idle, started (CheckOutsideLock only), wantR, locked, entered, delivering, done
+     pcR     |-> "idle",      \* idle, want, locked, done
      cur     |-> "A",         \* Stream.subStream
-     delivered |-> <<>>,      \* units handed to the readers: [pub, afterSwap]
+     delivered |-> <<>>,      \* units handed to the readers: [pub, afterSwap, afterReturn]
      sched   |-> <<>>]        \* the gates passed so far
 
 \* ------------------------------------------------------------------ internal steps (pure)
 CanRLock(t) == ~t.writer /\ ~t.pending
 
-Internal == {"WCheck0", "WAcquire", "WBody", "RAcquire", "RBody"}
+Internal == {"WCheck0", "WAcquire", "WEnter", "WDeliver", "WExit", "RAcquire", "RBody"}
 
 IEnabled(t, i) ==
     CASE i = "WCheck0"  -> t.pcW = "started"
       [] i = "WAcquire" -> t.pcW = "wantR" /\ CanRLock(t)
-      [] i = "WBody"    -> t.pcW = "locked"
-      [] i = "RAcquire" -> t.pcR = "wantW" /\ t.readers = {} /\ ~t.writer
+      [] i = "WEnter"   -> t.pcW = "locked"
+      [] i = "WDeliver" -> t.pcW = "entered" /\ t.pcS # "holding"
+      [] i = "WExit"    -> t.pcW = "delivering"
+      [] i = "RAcquire" -> t.pcR = "want" /\ (IF InitUnderReadLock THEN CanRLock(t) ELSE t.readers = {} /\ ~t.writer)
       [] i = "RBody"    -> t.pcR = "locked"
 
 IApply(t, i) ==
-    CASE i = "WCheck0"  ->            \* deviation: the guard, evaluated without the lock
+    CASE i = "WCheck0"  ->            \* CheckOutsideLock: the guard, evaluated without the lock
            IF t.cur = "A" THEN [t EXCEPT !.pcW = "wantR"] ELSE [t EXCEPT !.pcW = "done"]
       [] i = "WAcquire" -> [t EXCEPT !.pcW = "locked", !.readers = @ \cup {"W"}]
-      [] i = "WBody"    ->            \* under RLock: (the code: guard;) fan-out; RUnlock
-           LET pass == CheckOutsideLock \/ t.cur = "A"
-           IN [t EXCEPT !.pcW = "done", !.readers = @ \ {"W"},
-                        !.delivered = IF pass THEN Append(@, [pub |-> "A", afterSwap |-> t.cur # "A"]) ELSE @]
-      [] i = "RAcquire" -> [t EXCEPT !.pcR = "locked", !.writer = TRUE, !.pending = FALSE]
-      [] i = "RBody"    -> [t EXCEPT !.pcR = "done", !.writer = FALSE, !.cur = "B"]   \* swap; Unlock; return
+      [] i = "WEnter"   ->            \* under RLock: the guard
+           IF CheckOutsideLock \/ t.cur = "A" THEN [t EXCEPT !.pcW = "entered"]
+           ELSE [t EXCEPT !.pcW = "done", !.readers = @ \ {"W"}]
+      [] i = "WDeliver" ->            \* format update, remux, fan-out to the readers
+           [t EXCEPT !.pcW = "delivering",
+                     !.delivered = Append(@, [pub |-> "A", afterSwap |-> t.cur # "A", afterReturn |-> t.pcR = "done"])]
+      [] i = "WExit"    -> [t EXCEPT !.pcW = "done", !.readers = @ \ {"W"}]
+      [] i = "RAcquire" -> IF InitUnderReadLock THEN [t EXCEPT !.pcR = "locked", !.readers = @ \cup {"R"}]
+                           ELSE [t EXCEPT !.pcR = "locked", !.writer = TRUE, !.pending = FALSE]
+      [] i = "RBody"    ->            \* swap; Unlock; return
+           [t EXCEPT !.pcR = "done", !.writer = FALSE, !.readers = @ \ {"R"}, !.cur = "B"]
 
-\* run the internal steps until none is enabled.  After a gate at most one process can move at a time (writer
-\* preference serialises W behind a pending R), so the order CHOOSE picks is the only one
+\* run the internal steps until none is enabled.  After a gate the steps that are enabled belong to one process at a
+\* time (writer preference serialises W behind a pending R, and R behind a W that is inside), so the order is forced
 RECURSIVE Settle(_)
 Settle(t) ==
     IF \E i \in Internal : IEnabled(t, i)
@@ -76,19 +90,23 @@ Settle(t) ==
     ELSE t
 
 \* ------------------------------------------------------------------ gates (pure)
-Gates == {"HAcq", "HRel", "WCall", "RCall"}
+Gates == {"HAcq", "HRel", "SHold", "SRel", "WCall", "RCall"}
 
 GEnabled(t, g) ==
     CASE g = "HAcq"  -> t.pcH = "idle" /\ CanRLock(t)        \* the harness never blocks itself
       [] g = "HRel"  -> t.pcH = "holding"
+      [] g = "SHold" -> t.pcS = "idle" /\ t.pcW \in {"idle", "done"}     \* set up before the write begins
+      [] g = "SRel"  -> t.pcS = "holding"
       [] g = "WCall" -> t.pcW = "idle"
       [] g = "RCall" -> t.pcR = "idle"
 
 GApply(t, g) ==
     LET u == CASE g = "HAcq"  -> [t EXCEPT !.pcH = "holding", !.readers = @ \cup {"H"}]
                [] g = "HRel"  -> [t EXCEPT !.pcH = "released", !.readers = @ \ {"H"}]
+               [] g = "SHold" -> [t EXCEPT !.pcS = "holding"]
+               [] g = "SRel"  -> [t EXCEPT !.pcS = "released"]
                [] g = "WCall" -> [t EXCEPT !.pcW = IF CheckOutsideLock THEN "started" ELSE "wantR"]
-               [] g = "RCall" -> [t EXCEPT !.pcR = "wantW", !.pending = TRUE]     \* Lock() announces itself at once
+               [] g = "RCall" -> [t EXCEPT !.pcR = "want", !.pending = ~InitUnderReadLock]   \* Lock() announces itself at once
         v == [u EXCEPT !.sched = Append(@, g)]
     IN IF t.eager THEN Settle(v) ELSE v
 
@@ -96,28 +114,32 @@ GApply(t, g) ==
 Gate(g)  == GEnabled(s, g) /\ s' = GApply(s, g)
 Step(i)  == ~s.eager /\ IEnabled(s, i) /\ s' = IApply(s, i)
 
-Init == s \in {Init0(e, h) : e \in BOOLEAN, h \in WithHolder}
+Init == s \in {Init0(e, m) : e \in BOOLEAN, m \in Modes}
 Next == (\E g \in Gates : Gate(g)) \/ (\E i \in Internal : Step(i))
 Spec == Init /\ [][Next]_vars
 
 \* ------------------------------------------------------------------ layer 2: the statement
 \* "no data written by a replaced or removed publisher reaches readers afterwards"
-NoStaleDelivery(d) == \A k \in 1..Len(d) : ~(d[k].pub = "A" /\ d[k].afterSwap)
+NoStaleDelivery(d) == \A k \in 1..Len(d) : ~(d[k].pub = "A" /\ (d[k].afterSwap \/ d[k].afterReturn))
 PropNoStale == NoStaleDelivery(s.delivered)
 
 \* design checks
-TypeOK == /\ s.pcH \in {"idle", "holding", "released"} /\ s.pcW \in {"idle", "started", "wantR", "locked", "done"}
-          /\ s.pcR \in {"idle", "wantW", "locked", "done"}
-          /\ (s.writer => s.readers = {}) /\ ("W" \in s.readers <=> s.pcW = "locked") /\ ("H" \in s.readers <=> s.pcH = "holding")
-          /\ (s.writer <=> s.pcR = "locked") /\ (s.pending <=> s.pcR = "wantW")
+TypeOK == /\ s.pcH \in {"idle", "holding", "released"} /\ s.pcS \in {"idle", "holding", "released"}
+          /\ s.pcW \in {"idle", "started", "wantR", "locked", "entered", "delivering", "done"}
+          /\ s.pcR \in {"idle", "want", "locked", "done"}
+          /\ (s.writer => s.readers = {}) /\ ("H" \in s.readers <=> s.pcH = "holding")
+          /\ ("W" \in s.readers <=> s.pcW \in {"locked", "entered", "delivering"})
+          /\ (~InitUnderReadLock => ((s.writer <=> s.pcR = "locked") /\ (s.pending <=> s.pcR = "want")))
 \* at the replay granularity every state is at rest (Settle reached a fixpoint)
 Settled == s.eager => \A i \in Internal : ~IEnabled(s, i)
 
 \* what an observer sees of W and R between gates
-ObsW(t) == CASE t.pcW = "idle" -> "notstarted" [] t.pcW = "done" -> "done" [] OTHER -> "blocked"
+ObsW(t) == CASE t.pcW = "idle" -> "notstarted" [] t.pcW = "done" -> "done"
+             [] t.pcW \in {"entered", "delivering"} -> "stalled"      \* inside WriteUnit, past the guard, not finished
+             [] OTHER -> "blocked"                                     \* waiting for the stream mutex
 ObsR(t) == CASE t.pcR = "idle" -> "notstarted" [] t.pcR = "done" -> "done" [] OTHER -> "pending"
 
 \* generator: every complete schedule of the replay granularity
 Finished == \A g \in Gates : ~GEnabled(s, g)
-EmitScheds == (s.eager /\ Finished) => Emit("SCHED", [holder |-> s.holder, gates |-> s.sched])
+EmitScheds == (s.eager /\ Finished) => Emit("SCHED", [mode |-> s.mode, gates |-> s.sched])
 =============================================================================
